@@ -46,6 +46,7 @@ std::vector<uint32_t> thread_lengths();    // weighted hook counts per thread of
 
 // ----- from any sim thread -----
 int self();                                // sim thread id, -1 outside
+bool owns_any_mutex();                     // does the calling sim thread own a (simulated) mutex right now?
 bool is_finished(int id);                  // the OS thread of sim thread `id` has run its TLS destructors and reported exit
 uint64_t run_probe_count(int probe);       // how often a /repo probe fired in the current run
 bool active();                             // inside concurrent phase
